@@ -9,6 +9,6 @@ echo "|---|---|---|" >> $out
 for d in seeded/C*-*; do
   id=$(basename $d); p=${id%%-*}
   r=$(tools/trymut.sh $d/patch.diff $p 2>&1 | grep "^\[$p\]" | sed 's/|/\\|/g' | cut -c1-160)
-  echo "| $id | $p | $r |" >> $out
+  echo "| $id | $p | $r |" | tee -a $out
 done
 rm -rf /tmp/repo_mut
